@@ -425,11 +425,25 @@ func BuildResourceCircuitBreaker(res string, rulesOfRes []*Rule, oldResCbs []Cir
 	// otherwise the unchanged rule is rebuilt from scratch and loses its runtime state.
 	reserved := make(map[CircuitBreaker]bool, len(oldResCbs))
 	matched := make([]bool, len(rulesOfRes))
-	for i, r := range rulesOfRes {
-		for _, oldCb := range oldResCbs {
-			if !reserved[oldCb] && oldCb.BoundRule().isEqualsTo(r) {
+	// equalOf[i] is the old one that stays in place for rule i. Rules that find an equal old rule under
+	// their own ID are served first: a rule that differs from another one only in its ID must not be
+	// given that one's state (and leave its own behind) just because it is listed earlier.
+	equalOf := make([]CircuitBreaker, len(rulesOfRes))
+	for pass := 0; pass < 2; pass++ {
+		for i, r := range rulesOfRes {
+			if matched[i] {
+				continue
+			}
+			for _, oldCb := range oldResCbs {
+				if reserved[oldCb] || !oldCb.BoundRule().isEqualsTo(r) {
+					continue
+				}
+				if pass == 0 && (r.Id == "" || oldCb.BoundRule().Id != r.Id) {
+					continue
+				}
 				reserved[oldCb] = true
 				matched[i] = true
+				equalOf[i] = oldCb
 				break
 			}
 		}
@@ -449,12 +463,20 @@ func BuildResourceCircuitBreaker(res string, rulesOfRes []*Rule, oldResCbs []Cir
 			}
 		}
 	}
-	for _, r := range rulesOfRes {
+	for i, r := range rulesOfRes {
 		if res != r.Resource {
 			logging.Error(errors.Errorf("unmatched resource name expect: %s, actual: %s", res, r.Resource), "Unmatched resource name in circuitBreaker.BuildResourceCircuitBreaker()", "rule", r)
 			continue
 		}
-		equalIdx, reuseStatIdx := calculateReuseIndexFor(r, oldResCbs)
+		equalIdx, reuseStatIdx := -1, -1
+		if equalOf[i] != nil {
+			for idx, oldCb := range oldResCbs {
+				if oldCb == equalOf[i] {
+					equalIdx = idx
+					break
+				}
+			}
+		}
 		if equalIdx < 0 {
 			reuseStatIdx = -1
 			for idx, oldCb := range oldResCbs {
